@@ -62,6 +62,10 @@ def _fresh_value(key, v, strs, est=None, skip=()):
         return True, int(v) + 1
     if isinstance(v, (float, numpy.floating)):
         return True, float(v) * 0.5 + 0.125
+    if isinstance(v, (list, tuple)) and v and all(isinstance(x, (int, float)) and not isinstance(x, bool) for x in v):
+        return True, type(v)(x + 3 for x in v)                 # same length, other content
+    if isinstance(v, dict) and v and all(isinstance(x, (int, float)) and not isinstance(x, bool) for x in v.values()):
+        return True, {k_: x + 3 for k_, x in v.items()}        # same keys, other values
     if isinstance(v, str) or (v is None and base in strs):
         # menus may contain None (a documented synonym such as fit_improve_algo=None)
         alts = [a for a in strs.get(base, []) if a != v]
@@ -98,7 +102,7 @@ def _category(key, v):
         return "nested estimator" if nested else "estimator"
     t = ("bool" if isinstance(v, (bool, numpy.bool_)) else "int" if isinstance(v, (int, numpy.integer)) else
          "float" if isinstance(v, (float, numpy.floating)) else "str" if isinstance(v, str) else
-         "none" if v is None else "other")
+         "none" if v is None else "list" if isinstance(v, list) else "tuple" if isinstance(v, tuple) else "dict" if isinstance(v, dict) else "other")
     return ("nested " if nested else "plain ") + t
 
 
